@@ -19,7 +19,7 @@ let parse_op nslots line : op =
       match l with
       | e :: p :: b :: r ->
         { p_ev = nat_of_int (int_of_string e); p_pid = nat_of_int (int_of_string p);
-          p_bad = (int_of_string b <> 0) } :: go (k - 1) r
+          p_bad = (int_of_string b = 1) } :: go (k - 1) r
       | _ -> failwith "bad P" in
     InsertPrimaries (go k rest)
   | ["E"] -> ExtendFromPrimaries
